@@ -66,6 +66,8 @@ def main():
         if not miri:
             cenv["VERIF_NO_MIRI"] = "1"
         cenv["VERIF_NO_ASAN"] = "1"
+        cenv["VERIF_EVIDENCE_DIR"] = "/tmp/mut/evidence-%s" % name
+        cenv["VERIF_REPLAY_DIR"] = "/tmp/mut/replays-%s" % name
         for p in props:
             t0 = time.time()
             rc, out = sh([os.path.join(ROOT, "check"), p, tier], cwd=ROOT, env=cenv)
@@ -80,8 +82,8 @@ def main():
             sfx = hashlib.sha1(wt.encode()).hexdigest()[:6]
             for fl in ("native", "miri", "asan"):
                 shutil.rmtree(os.path.join(ROOT, "harness", "target-%s-%s" % (fl, sfx)), ignore_errors=True)
-        # evidence files were rewritten by runs against the scratch tree: restore the committed ones
-        sh(["git", "checkout", "--", "evidence"], cwd=ROOT)
+        shutil.rmtree("/tmp/mut/evidence-%s" % name, ignore_errors=True)
+        shutil.rmtree("/tmp/mut/replays-%s" % name, ignore_errors=True)
     print(json.dumps(res, indent=1))
     return 0
 
